@@ -8,7 +8,7 @@ unfix={
  '96d38f1':['C20.unregister'], '187bc3c':['C16.codec-shape'], 'c9b62a4':['C06.argvindex-dense'], '94352cf':['C03.persist-lists'],
  'd3baf5d':['C11.historic-strict','C14.errors'], '6c87939':['C07.null-operand'], '319b65f':['C15.conn'], '660431a':['C14.handle'],
  'd0ba73d':['C14.handle'], '7d55337':['C07.compare-only'], '421ec03':['C09.gc-excludes-live'],
- '545bb24':['C06.scan-start'], '89794c8':['C06.scan-start'], '9aa571d':['C06.plan-total'], '665bed9':['C09.vacuum-outside-tx'], '9b85bdd':['C09.gc-evicts-cache'], '859b3e0':['C20.int-range'], 'd9d3bbc':['C20.notnull-enforced'], 'a1094e3':['C20.declared-names-quoted'], '5c065aa':['C20.type-per-column'], 'af243ca':['C20.list-grammar'], '6ff3789':['C09.gc-retires-first'], '2e219de':['C15.unassigned-kept'], '472af0c':['C18.legacy-selected'], '39edc01':['C19.own-http-client'], '58bd8a6':['C15.filter-restarts'], 'a0f7877':['C15.cancel-only-resets'], '1355c67':['C15.time-range','C04.vacuum-purge'], '130be57':['C17.tombstone-tests-agree'], 'a24b1d1':['C05.begin-releases'], 'c76a515':['C14.errors','C03.open-errors'], '66b377a':['C20.endpoint-resolved'], 'a8fb761':['C20.dup-case'], '72e85f6':['C09.gc-root-kept'], 'abef12c':['C12.options-default'], '331f3fb':['C15.filter-restarts'], '597c8bc':['C06.key-change-seen'], '1818fdc':['C15.reads-back-exactly'],
+ '545bb24':['C06.scan-start'], '89794c8':['C06.scan-start'], '9aa571d':['C06.plan-total'], '665bed9':['C09.vacuum-outside-tx'], '9b85bdd':['C09.gc-evicts-cache'], '859b3e0':['C20.int-range'], 'd9d3bbc':['C20.notnull-enforced'], 'a1094e3':['C20.declared-names-quoted'], '5c065aa':['C20.type-per-column'], 'af243ca':['C20.list-grammar'], '6ff3789':['C09.gc-retires-first'], '2e219de':['C15.unassigned-kept'], '472af0c':['C18.legacy-selected'], '39edc01':['C19.own-http-client'], '58bd8a6':['C15.filter-restarts'], 'a0f7877':['C15.cancel-only-resets'], '1355c67':['C15.time-range','C04.vacuum-purge'], '130be57':['C17.tombstone-tests-agree'], 'a24b1d1':['C05.begin-releases'], 'c76a515':['C14.errors','C03.open-errors'], '66b377a':['C20.endpoint-resolved'], 'a8fb761':['C20.dup-case'], '72e85f6':['C09.gc-root-kept'], 'abef12c':['C12.options-default'], '331f3fb':['C15.filter-restarts'], '597c8bc':['C06.key-change-seen'], '1818fdc':['C15.reads-back-exactly'], '01926ab':['C03.prefix-clean'], '2db17cb':['C03.persist-lists'], '4f6c5c4':['C05.failed-tx-refuses'], '25e835d':['C05.create-begins'], 'd2fe75a':['C09.gc-keeps-staying'], 'a2b321f':['C14.errors'], '17d4576':['C12.live-from-has-entries'],
 }
 for c,rules in unfix.items():
     out.append({"name":"unfix-"+c,"patch":"checker/selftest/variants/unfix-%s.patch"%c,"expect":rules,"kind":"reverts the repair of a genuine defect (fix commit %s)"%c})
